@@ -224,23 +224,6 @@ pub fn run() {
     c.set_rule("cases = diagrams; for each, every rule x every argument tuple over its vertices plus two non-existent ids x 2 backends is checked (counter check_calls); non-trivial = at least one matcher accepted; distinct = distinct diagram descriptions");
     c.assume("independent evaluator O2 / ring O1 correct (self-tested, cross-checked)");
     c.assume("'bit-for-bit unchanged' is decided by the backend's derived PartialEq (all fields incl. holes and counters)");
-    let (ms, n_rand) = t.pick((6usize, 3000usize), (9usize, 80_000usize));
-    par_cases("arbitrary-exact", n_rand, move |r, i| {
-        let d = gen_random(r, &DiagParams { max_spiders: ms, max_bnd: 3, pool: PhasePool::CliffordHeavy, graph_like: false, bare_wires: true, var_prob: 0.0 });
-        check_desc("arbitrary-exact", i, r, &d);
-    });
-    par_cases("graph-like", n_rand, move |r, i| {
-        let d = gen_random(r, &DiagParams { max_spiders: ms + 1, max_bnd: 3, pool: PhasePool::CliffordHeavy, graph_like: true, bare_wires: false, var_prob: 0.0 });
-        check_desc("graph-like", i, r, &d);
-    });
-    par_cases("graph-like-float", n_rand / 3, move |r, i| {
-        let d = gen_random(r, &DiagParams { max_spiders: ms, max_bnd: 3, pool: PhasePool::Float, graph_like: true, bare_wires: false, var_prob: 0.0 });
-        check_desc("graph-like-float", i, r, &d);
-    });
-    par_cases("gadget-rich", n_rand, move |r, i| {
-        let d = gen_gadget_rich(r, 4, PhasePool::CliffordHeavy, 0.0);
-        check_desc("gadget-rich", i, r, &d);
-    });
     let max_ns = t.pick(2usize, 3usize);
     let mut space_total = 0u64;
     let mut completed = true;
@@ -261,5 +244,22 @@ pub fn run() {
             completed = false;
         }
     }
+    let (ms, n_rand) = t.pick((6usize, 3000usize), (9usize, 80_000usize));
+    par_cases("arbitrary-exact", n_rand, move |r, i| {
+        let d = gen_random(r, &DiagParams { max_spiders: ms, max_bnd: 3, pool: PhasePool::CliffordHeavy, graph_like: false, bare_wires: true, var_prob: 0.0 });
+        check_desc("arbitrary-exact", i, r, &d);
+    });
+    par_cases("graph-like", n_rand, move |r, i| {
+        let d = gen_random(r, &DiagParams { max_spiders: ms + 1, max_bnd: 3, pool: PhasePool::CliffordHeavy, graph_like: true, bare_wires: false, var_prob: 0.0 });
+        check_desc("graph-like", i, r, &d);
+    });
+    par_cases("graph-like-float", n_rand / 3, move |r, i| {
+        let d = gen_random(r, &DiagParams { max_spiders: ms, max_bnd: 3, pool: PhasePool::Float, graph_like: true, bare_wires: false, var_prob: 0.0 });
+        check_desc("graph-like-float", i, r, &d);
+    });
+    par_cases("gadget-rich", n_rand, move |r, i| {
+        let d = gen_gadget_rich(r, 4, PhasePool::CliffordHeavy, 0.0);
+        check_desc("gadget-rich", i, r, &d);
+    });
     c.extra("exhaustive_tiny", json!({"max_spiders": max_ns, "space": space_total, "completed": completed}));
 }
